@@ -117,6 +117,7 @@ type funcCtx struct {
 	mutRecv bool
 	mutable map[string]bool
 	resultIsSlice []bool
+	ownRecv string // (state specs) the name of the method's own receiver
 	trace   bool
 	traceResult bool // the traced handler also returns a value
 	writers map[string]bool // parameters of type http.ResponseWriter
@@ -828,10 +829,16 @@ func (t *trans) call(c *ast.CallExpr) string {
 		// the IdP's session provider takes the request value, whose type refers back to the IdP: as a record field that would be
 		// a cyclic structure; it is an `Env` function of the IdP instead
 		if f.Sel.Name == "GetSession" && strings.HasSuffix(t.src(f.X), ".SessionProvider") && len(c.Args) == 3 {
-			if inner, ok := f.X.(*ast.SelectorExpr); ok && t.isRecv(inner.X) {
-				t.addExtern("sessionProviderGetSession", "IdentityProvider → ResponseWriter → (Option HTTPRequest) → (Option IdpAuthnRequest) → Outcome (Option Session)")
-				t.touchStruct("Session")
-				return "(← env.sessionProviderGetSession " + t.cur.recv + " " + t.args(c.Args) + ")"
+			if inner, ok := f.X.(*ast.SelectorExpr); ok {
+				own := false
+				if id, isID := inner.X.(*ast.Ident); isID && t.cur.ownRecv != "" && id.Name == t.cur.ownRecv {
+					own = true
+				}
+				if t.isRecv(inner.X) || own {
+					t.addExtern("sessionProviderGetSession", "IdentityProvider → ResponseWriter → (Option HTTPRequest) → (Option IdpAuthnRequest) → Outcome (Option Session)")
+					t.touchStruct("Session")
+					return "(← env.sessionProviderGetSession " + t.derefd(inner.X) + " " + t.args(c.Args) + ")"
+				}
 			}
 		}
 		// method of a translated receiver type, or a function-valued field / interface method
@@ -1041,6 +1048,9 @@ func (t *trans) varName(name string) string {
 
 func (t *trans) retExpr(results []ast.Expr) string {
 	if t.cur.trace && !t.cur.traceResult {
+		if t.cur.mutRecv {
+			return "(" + t.cur.recv + ", trace')" // a traced range with a state variable: (state, trace)
+		}
 		return "trace'"
 	}
 	if t.cur.trace {
@@ -1266,7 +1276,16 @@ func (t *trans) assign(o *out, ind int, x *ast.AssignStmt) {
 		// v, err := call(...)   /   v, err = call(...)
 		var ns []string
 		anyMut := x.Tok == token.ASSIGN
-		for _, l := range x.Lhs {
+		fieldOf := map[int]string{} // position -> field of the state variable / modified receiver assigned there
+		for i, l := range x.Lhs {
+			if sel, ok := l.(*ast.SelectorExpr); ok && t.isRecv(sel.X) && t.cur.mutRecv && x.Tok == token.ASSIGN {
+				tv := t.info.Types[sel.X]
+				sname, _ := namedOf(tv.Type)
+				t.useField(sname, sel.Sel.Name)
+				fieldOf[i] = sel.Sel.Name
+				ns = append(ns, "_")
+				continue
+			}
 			id, ok := l.(*ast.Ident)
 			if !ok {
 				t.failf("%s: unsupported assignment %s", t.cur.name, t.src(x))
@@ -1295,6 +1314,10 @@ func (t *trans) assign(o *out, ind int, x *ast.AssignStmt) {
 			}
 			if i < len(ns)-1 {
 				proj += ".1"
+			}
+			if f, ok := fieldOf[i]; ok {
+				o.line(ind, t.cur.recv+" := { "+t.cur.recv+" with "+f+" := "+proj+" }")
+				continue
 			}
 			if n == "_" {
 				continue
@@ -1554,8 +1577,13 @@ func (t *trans) function(name string) {
 			ctx.recv = r.Names[0].Name
 			params = append(params, "("+ctx.recv+" : "+t.leanType(rt)+")")
 		} else if len(r.Names) == 1 {
-			// the method's own receiver is an ordinary (non-nil) parameter here
-			params = append(params, "("+leanIdent(r.Names[0].Name)+" : "+t.leanType(rt)+")")
+			// the method's own receiver is an ordinary parameter here (a pointer like any other)
+			if _, isPtr := r.Type.(*ast.StarExpr); isPtr {
+				params = append(params, "("+leanIdent(r.Names[0].Name)+" : (Option "+t.leanType(rt)+"))")
+			} else {
+				params = append(params, "("+leanIdent(r.Names[0].Name)+" : "+t.leanType(rt)+")")
+			}
+			ctx.ownRecv = r.Names[0].Name
 		}
 	}
 	if sp.state != "" {
@@ -1923,6 +1951,8 @@ func translate(repo string, p *pkgFiles, outPath string) {
 		{fn: "Validate", recv: "IdpAuthnRequest", mutRecv: true, anchor: "mustHaveDestination :="},
 		{fn: "ValidateLogoutResponseForm", recv: "ServiceProvider", as: "logoutFormTail", anchor: "if err := sp.validateSignature(doc.Root()); err != nil {"},
 		{fn: "ValidateLogoutResponseRedirect", recv: "ServiceProvider", as: "logoutRedirectTail", anchor: "if err := sp.validateSignature(doc.Root()); err != nil {"},
+		{fn: "ServeIDPInitiated", recv: "IdentityProvider", as: "idpInitiatedGate", state: "req", trace: true,
+			anchor: "session := idp.SessionProvider.GetSession(w, r, req)", until: "for _, spssoDescriptor := range req.ServiceProviderMetadata.SPSSODescriptors"},
 		{fn: "ServeSSO", recv: "IdentityProvider", as: "serveSSOGate", trace: true, until: "assertionMaker := idp.AssertionMaker"},
 	}
 	rootExterns := map[string]bool{"NewIdpAuthnRequest": true, "Validate": true, "validateSignature": true, "decryptElement": true, "unmarshalElement": true, "findChildren": true,
